@@ -317,6 +317,13 @@ impl<'data> SectionRule<'data> {
             }
         };
 
+        // Rules are looked up by a hash of the first 4 bytes of their pattern.
+        crate::ensure!(
+            name_matcher.prefix_bytes().len() >= 4,
+            "Section name patterns shorter than 4 bytes aren't supported yet: `{}`",
+            String::from_utf8_lossy(pattern)
+        );
+
         Ok(Self {
             name_matcher,
             input_file_pattern: compiled_file_pattern,
